@@ -37,7 +37,7 @@ theorem iterNext_spec (it : Iter) (d : Deque) (m : Mem) (hi : d.Inv) :
   · rw [if_neg h]
     simp only
     rw [abs_getElem? d it.index (by omega)]
-    exact ⟨tr, tr, tr, rd_snd _ _ _ (Nat.lt_of_lt_of_le (Nat.mod_lt _ hpos) hi.2.2.1)⟩
+    exact ⟨tr, tr, tr, rd_snd _ _ _ (Nat.lt_of_lt_of_le (Nat.mod_lt _ hpos) (Nat.le_of_eq hi.2.2.1.symm))⟩
 
 /-- a fresh iterator yields every element exactly once, in order: at cursor position `k < size` the
 call returns the `k`-th element of the content and moves to `k + 1` (whatever `first`, `size`, `capacity`
@@ -48,7 +48,7 @@ theorem iterNext_yield (it : Iter) (d : Deque) (m : Mem) (hi : d.Inv) (h : it.in
   unfold iterNext
   rw [if_neg (by omega), abs_getElem? d it.index h]
   dsimp only
-  rw [rd_snd _ _ _ (Nat.lt_of_lt_of_le (Nat.mod_lt _ hpos) hi.2.2.1)]
+  rw [rd_snd _ _ _ (Nat.lt_of_lt_of_le (Nat.mod_lt _ hpos) (Nat.le_of_eq hi.2.2.1.symm))]
   rfl
 
 /-- … and reports the end, changing nothing, exactly when every element has been passed -/
@@ -130,9 +130,9 @@ theorem iterAdd_refines_partial (it : Iter) (d : Deque) (x : Nat) (m : Mem) (hi 
     ((iterAdd it d x m).1 = (DequeSpec.curAdd d.abs it.cur x).1 ∧
       (iterAdd it d x m).2.2.1.abs = (DequeSpec.curAdd d.abs it.cur x).2.1 ∧
       (iterAdd it d x m).2.1.cur = (DequeSpec.curAdd d.abs it.cur x).2.2 ∧
-      (iterAdd it d x m).2.2.1.Inv ∧ memSame (iterAdd it d x m).2.2.2 m) ∨
+      (iterAdd it d x m).2.2.1.Inv ∧ memSame d.triple (iterAdd it d x m).2.2.2 m) ∨
     ((iterAdd it d x m).1 = .errAlloc ∧ (iterAdd it d x m).2.2.1 = d ∧ (iterAdd it d x m).2.1 = it ∧
-      memSame (iterAdd it d x m).2.2.2 m ∧ d.size = d.cap ∧ (m.alloc.1 = false ∨ d.cap = Gen.MAX_POW_TWO)) := by
+      memSame d.triple (iterAdd it d x m).2.2.2 m ∧ d.size = d.cap ∧ ((m.allocT d.triple).1 = false ∨ d.cap = Gen.MAX_POW_TWO)) := by
   unfold iterAdd DequeSpec.curAdd Iter.cur
   by_cases hend : it.index = d.size
   · simp only [hend, if_true, abs_length, Nat.le_refl]
@@ -198,8 +198,8 @@ theorem zipNext_spec (it : Iter) (d1 d2 : Deque) (m : Mem) (h1 : d1.Inv) (h2 : d
       simp only
       rw [abs_getElem? d1 it.index (by omega), abs_getElem? d2 it.index (by omega)]
       refine ⟨tr, tr, tr, ?_⟩
-      rw [rd_snd _ _ _ (Nat.lt_of_lt_of_le (Nat.mod_lt _ hp2) h2.2.2.1),
-        rd_snd _ _ _ (Nat.lt_of_lt_of_le (Nat.mod_lt _ hp1) h1.2.2.1)]
+      rw [rd_snd _ _ _ (Nat.lt_of_lt_of_le (Nat.mod_lt _ hp2) (Nat.le_of_eq h2.2.2.1.symm)),
+        rd_snd _ _ _ (Nat.lt_of_lt_of_le (Nat.mod_lt _ hp1) (Nat.le_of_eq h1.2.2.1.symm))]
 
 /-- **`cc_deque_zip_iter_replace`** -/
 theorem zipReplace_spec (it : Iter) (d1 d2 : Deque) (x y : Nat) (m : Mem) (h1 : d1.Inv) (h2 : d2.Inv) :
@@ -292,8 +292,8 @@ def growIfFull (d : Deque) (m : Mem) : Stat × Deque × Mem :=
 theorem growIfFull_spec (d : Deque) (m : Mem) (hi : d.Inv) :
     ((growIfFull d m).1 = .ok ∧ (growIfFull d m).2.1.Inv ∧ (growIfFull d m).2.1.abs = d.abs ∧
       (growIfFull d m).2.1.size = d.size ∧ (growIfFull d m).2.1.size < (growIfFull d m).2.1.cap ∧
-      memSame (growIfFull d m).2.2 m) ∨
-    ((growIfFull d m).1 ≠ .ok ∧ (growIfFull d m).2.1 = d ∧ memSame (growIfFull d m).2.2 m ∧ d.size = d.cap) := by
+      memSame d.triple (growIfFull d m).2.2 m) ∨
+    ((growIfFull d m).1 ≠ .ok ∧ (growIfFull d m).2.1 = d ∧ memSame d.triple (growIfFull d m).2.2 m ∧ d.size = d.cap) := by
   have hpos := Inv.cap_pos hi
   have hsz := hi.2.2.2.2.2
   unfold growIfFull
@@ -305,7 +305,12 @@ theorem growIfFull_spec (d : Deque) (m : Mem) (hi : d.Inv) :
     · obtain ⟨f1, f2, _⟩ := expandCapacity_fail d m he
       exact Or.inr ⟨he, f1, f2, hfull.symm⟩
   · rw [if_neg hfull]
-    exact Or.inl ⟨rfl, hi, rfl, rfl, by simp only; omega, memSame_refl m⟩
+    exact Or.inl ⟨rfl, hi, rfl, rfl, by simp only; omega, memSame_refl _ m⟩
+
+theorem growIfFull_triple (d : Deque) (m : Mem) : (growIfFull d m).2.1.triple = d.triple := by
+  unfold growIfFull; split
+  · exact expandCapacity_triple d m
+  · rfl
 
 /-- **`cc_deque_zip_iter_add`, partial (finding D3)**: a pair is inserted at the cursor position of both
 deques, or — when one of the deques is full and its growth is refused — `CC_ERR_ALLOC` is reported and
@@ -320,16 +325,16 @@ theorem zipAdd_refines_partial (it : Iter) (d1 d2 : Deque) (x y : Nat) (m : Mem)
       (zipAdd it d1 d2 x y m).2.2.2.1.abs = (DequeSpec.zipAdd d1.abs d2.abs it.cur x y).2.2.1 ∧
       (zipAdd it d1 d2 x y m).2.1.cur = (DequeSpec.zipAdd d1.abs d2.abs it.cur x y).2.2.2 ∧
       (zipAdd it d1 d2 x y m).2.2.1.Inv ∧ (zipAdd it d1 d2 x y m).2.2.2.1.Inv ∧
-      memSame (zipAdd it d1 d2 x y m).2.2.2.2 m) ∨
+      memSame2 d1.triple d2.triple (zipAdd it d1 d2 x y m).2.2.2.2 m) ∨
     ((zipAdd it d1 d2 x y m).1 = .errAlloc ∧ (zipAdd it d1 d2 x y m).2.2.1.abs = d1.abs ∧
       (zipAdd it d1 d2 x y m).2.2.2.1.abs = d2.abs ∧ (zipAdd it d1 d2 x y m).2.1 = it ∧
       (zipAdd it d1 d2 x y m).2.2.1.Inv ∧ (zipAdd it d1 d2 x y m).2.2.2.1.Inv ∧
-      memSame (zipAdd it d1 d2 x y m).2.2.2.2 m ∧ (d1.size = d1.cap ∨ d2.size = d2.cap)) := by
+      memSame2 d1.triple d2.triple (zipAdd it d1 d2 x y m).2.2.2.2 m ∧ (d1.size = d1.cap ∨ d2.size = d2.cap)) := by
   unfold zipAdd DequeSpec.zipAdd Iter.cur
   by_cases hr : it.index ≥ d1.size ∨ it.index ≥ d2.size
   · left
     rw [if_pos hr, if_neg (by simp only [abs_length]; omega)]
-    exact ⟨tr, tr, tr, tr, h1, h2, memSame_refl m⟩
+    exact ⟨tr, tr, tr, tr, h1, h2, memSame2_refl _ _ m⟩
   have hi1 : it.index < d1.size := by omega
   have hi2 : it.index < d2.size := by omega
   have hc : it.index < d1.abs.length ∧ it.index < d2.abs.length := by simp only [abs_length]; omega
@@ -355,16 +360,37 @@ theorem zipAdd_refines_partial (it : Iter) (d1 d2 : Deque) (x y : Nat) (m : Mem)
           rw [a3, if_pos (by simpa using hi1)] at p2
           rw [b3, if_pos (by simpa using hi2)] at q2
           refine ⟨tr, p2, q2, tr, p3, q3, ?_⟩
-          exact memSame_trans q4 (memSame_trans p4 (memSame_trans b6 a6))
+          rw [growIfFull_triple] at p4 q4
+          exact memSame2_trans (memSame2_right _ q4) (memSame2_trans (memSame2_left _ p4)
+            (memSame2_trans (memSame2_right _ b6) (memSame2_left _ a6)))
         · omega
       · omega
     · right
       have hne2 : ((growIfFull d2 (growIfFull d1 m).2.2).1 != Stat.ok) = true := by simp [b1]
       simp only [hne2, if_true]
-      refine ⟨tr, a3, by rw [b2], tr, a2, by rw [b2]; exact h2, memSame_trans b3 a6, Or.inr b4⟩
+      refine ⟨tr, a3, by rw [b2], tr, a2, by rw [b2]; exact h2,
+        memSame2_trans (memSame2_right _ b3) (memSame2_left _ a6), Or.inr b4⟩
   · right
     have hne1 : ((growIfFull d1 m).1 != Stat.ok) = true := by simp [a1]
     simp only [hne1, if_true]
-    refine ⟨tr, by rw [a2], tr, tr, by rw [a2]; exact h1, h2, a3, Or.inl a4⟩
+    refine ⟨tr, by rw [a2], tr, tr, by rw [a2]; exact h1, h2, memSame2_left _ a3, Or.inl a4⟩
+
+/-! ## iterator operations never change a deque's allocator triple -/
+
+theorem iterRemove_triple (it : Iter) (d : Deque) (m : Mem) : (iterRemove it d m).2.2.2.1.triple = d.triple := by
+  unfold iterRemove
+  split; · rfl
+  dsimp only
+  split <;> exact removeAt_triple d _ m
+
+theorem iterAdd_triple (it : Iter) (d : Deque) (x : Nat) (m : Mem) : (iterAdd it d x m).2.2.1.triple = d.triple := by
+  unfold iterAdd
+  dsimp only
+  split
+  · split <;> exact addLast_triple d x m
+  · split <;> exact addAt_triple d x _ m
+
+theorem iterReplace_triple (it : Iter) (d : Deque) (x : Nat) (m : Mem) :
+    (iterReplace it d x m).2.2.1.triple = d.triple := replaceAt_triple d x _ m
 
 end CC.Deque
